@@ -395,10 +395,29 @@ theorem sdDelattr_sim {s : SD K V} {g : SDSpec K V} (h : SDRep s g) (attr : Opti
           · simp only
             rw [dget_dset]; simp [h.dflt]
 
-/-- key tuples of assignments are non-empty -/
+/-- key tuples of assignments are non-empty; an assignment refused after the deletion loop is
+    outside the refinement (as the code is today it fails half-way, see `sdSetRefused_sim`) -/
 def SOp.valid : SOp K V → Prop
   | .set keys _ => keys ≠ []
+  | .setRefused _ => False
   | _ => True
+
+/-- nothing the coherence invariant needs is excluded: only the empty key tuple -/
+def SOp.nonEmpty : SOp K V → Prop
+  | .set keys _ => keys ≠ []
+  | _ => True
+
+/-- a refused StrategyDict assignment, as the code is today: the exception is raised and the state
+    still represents a well-formed abstract state — the one in which the names `deleted` were
+    deleted one by one (their bindings gone, the other attributes untouched, the default gone when
+    it lost all its names) -/
+theorem sdSetRefused_sim {s : SD K V} {g : SDSpec K V} (h : SDRep s g) (deleted : List K) :
+    (∃ g1, SDRep (sdStep s (.setRefused deleted)).1 g1 ∧
+      g1.log = g.log.filter (fun e => e.1 ∉ deleted) ∧
+      (∀ k, k ∉ deleted → dget g1.attr k = dget g.attr k) ∧
+      g1.default = defaultAfterLoss g.log g.default deleted) ∧
+    (sdStep s (.setRefused deleted)).2 = .rejected :=
+  ⟨sdDelLoop_sim deleted h, rfl⟩
 
 theorem sdStep_sim {s : SD K V} {g : SDSpec K V} (h : SDRep s g) (op : SOp K V) (hv : SOp.valid op) :
     SDRep (sdStep s op).1 (sdSpecStep g op).1 ∧ (sdStep s op).2 = (sdSpecStep g op).2 := by
@@ -437,6 +456,31 @@ theorem sdStep_sim {s : SD K V} {g : SDSpec K V} (h : SDRep s g) (op : SOp K V) 
   | default => exact ⟨h, by simp only [sdStep, sdSpecStep, sdDefault, h.dflt]⟩
   | call => exact ⟨h, by simp only [sdStep, sdSpecStep, sdDefault, h.dflt]⟩
   | len => exact ⟨h, by simp only [sdStep, sdSpecStep, h.rep.len_eq]⟩
+  | setRefused deleted => exact absurd hv (by simp [SOp.valid])
+  | rejected => exact ⟨h, rfl⟩
+
+/-- the deletion loop over names that hold no strategy does nothing -/
+theorem sdDelLoop_unbound (p : List K) (s : SD K V) (h : ∀ k ∈ p, key2keys s.mkd k = none) :
+    sdDelLoop s p = s := by
+  induction p with
+  | nil => rfl
+  | cons k r ih =>
+    have hk := h k List.mem_cons_self
+    simp only [sdDelLoop, sdDelitem, hk]
+    exact ih (fun x hx => h x (List.mem_cons_of_mem _ hx))
+
+/-- the three maps stay coherent under EVERY operation, the half-way failing one included -/
+theorem sdStep_inv_any {s : SD K V} {g : SDSpec K V} (h : SDRep s g) (op : SOp K V)
+    (hv : SOp.nonEmpty op) : ∃ g', SDRep (sdStep s op).1 g' := by
+  by_cases hr : ∃ d, op = .setRefused d
+  · obtain ⟨d, rfl⟩ := hr
+    obtain ⟨⟨g1, h1, _⟩, _⟩ := sdSetRefused_sim h d
+    exact ⟨g1, h1⟩
+  · refine ⟨_, (sdStep_sim h op ?_).1⟩
+    cases op with
+    | set keys v => exact hv
+    | setRefused d => exact absurd ⟨d, rfl⟩ hr
+    | _ => trivial
 
 theorem sdRun_sim (ops : List (SOp K V)) : ∀ {s : SD K V} {g : SDSpec K V}, SDRep s g →
     (∀ op ∈ ops, SOp.valid op) →
@@ -511,6 +555,8 @@ theorem sdSpecStep_attrCoherent {g : SDSpec K V} (h : AttrCoherent g) (op : SOp 
   | default => exact h
   | call => exact h
   | len => exact h
+  | setRefused _ => exact h
+  | rejected => exact h
 
 theorem sdSpecRun_attrCoherent (ops : List (SOp K V)) : ∀ {g : SDSpec K V}, AttrCoherent g →
     (∀ op ∈ ops, SOp.noSetattr op) → AttrCoherent (sdSpecRun g ops).1 := by
@@ -603,6 +649,8 @@ theorem sdSpecStep_keeps {g : SDSpec K V} {k0 : K} {v0 : V} (op : SOp K V)
   | default => exact ⟨hlog, hdef⟩
   | call => exact ⟨hlog, hdef⟩
   | len => exact ⟨hlog, hdef⟩
+  | setRefused _ => exact ⟨hlog, hdef⟩
+  | rejected => exact ⟨hlog, hdef⟩
 
 theorem sdSpecRun_keeps (ops : List (SOp K V)) {k0 : K} {v0 : V} : ∀ {g : SDSpec K V},
     (∀ op ∈ ops, SOp.keepsName k0 op) → dget g.log k0 = some v0 → g.default = some v0 →
